@@ -36,8 +36,8 @@ ASSUMPTIONS = [
     'zero with a length unit may lose the unit (stated by the property)',
 ]
 MIN_EVENTS = {
-    'quick': {'oracle.nested': 500, 'oracle.reassign': 600, 'oracle.reassign-declaration': 3000, 'oracle.number': 40000, 'oracle.hash': 20000, 'oracle.color': 2000, 'oracle.string': 3000, 'contract.do_css_Value': 40000, 'contract._hash': 10000},
-    'thorough': {'oracle.nested': 500, 'oracle.reassign': 600, 'oracle.reassign-declaration': 3000, 'oracle.number': 800000, 'oracle.hash': 300000, 'oracle.color': 30000, 'oracle.string': 60000, 'contract.do_css_Value': 800000, 'contract._hash': 100000},
+    'quick': {'oracle.nested': 500, 'oracle.reassign': 500, 'oracle.reassign-declaration': 2600, 'oracle.number': 40000, 'oracle.hash': 20000, 'oracle.color': 2000, 'oracle.string': 3000, 'contract.do_css_Value': 40000, 'contract._hash': 10000},
+    'thorough': {'oracle.nested': 500, 'oracle.reassign': 500, 'oracle.reassign-declaration': 2600, 'oracle.number': 800000, 'oracle.hash': 300000, 'oracle.color': 30000, 'oracle.string': 60000, 'contract.do_css_Value': 800000, 'contract._hash': 100000},
 }
 
 UNITS = ['', '%', 'px', 'em', 'ex', 'cm', 'mm', 'in', 'pt', 'pc', 'deg', 's', 'ms', 'Hz', 'PX', 'x']
